@@ -35,7 +35,14 @@ def gen_case(rng: random.Random, small: bool = False) -> dict:
             flip = rng.choice([0.0, 0.05, 0.2, 0.5])
             rows.append([b ^ (1 if rng.random() < flip else 0) for b in p])
         files.append(rows)
+    dup = None
+    if n_files >= 2 and rng.random() < 0.15:
+        # the same file listed twice (same path): its rows are clustered twice, under two index ranges
+        i, j = sorted(rng.sample(range(n_files), 2))
+        files[j] = [list(r) for r in files[i]]
+        dup = [i, j]
     return {
+        "dup": dup,
         "F": F, "files": files, "packed": rng.random() < 0.5,
         "bf": rng.choice([2, 3, 5, 50]), "thr": rng.choice([0.0, 0.3, 0.5, 0.65, 0.9]),
         "chg": rng.choice([0.0, 0.0, 0.05, -0.1]), "tol": rng.choice([0.0, 0.05, 0.5]),
@@ -92,6 +99,9 @@ def write_inputs(case: dict, d: Path) -> list[Path]:
         X = np.asarray(rows, dtype=np.uint8).reshape(len(rows), case["F"])
         if case["packed"]:
             X = np.packbits(X, axis=1)
+        if case.get("dup") and i == case["dup"][1]:
+            paths.append(paths[case["dup"][0]])
+            continue
         p = d / f"in-{i:03d}.npy"
         np.save(p, X)
         paths.append(p)
@@ -422,7 +432,7 @@ def suite_c14(tier: str, seed: int, mult: int) -> SuiteResult:
     res = SuiteResult("S-MR[C14 crash/stale stream]")
     work = _work()
     d = Driver()
-    cnt = {"configs": 0, "crash_points": 0, "partial_writes": 0, "reruns": 0, "stale_dirs": 0, "effects_total": 0}
+    cnt = {"configs": 0, "crash_points": 0, "partial_writes": 0, "reruns": 0, "stale_dirs": 0, "effects_total": 0, "crashes_after_publication": 0}
     try:
         n_cfg = (4 if tier == "quick" else 25) * mult
         for ci in range(n_cfg):
@@ -499,10 +509,25 @@ def suite_c14(tier: str, seed: int, mult: int) -> SuiteResult:
                 res.evaluations += 1
                 res.nontrivial += 1
                 # (a crash before the run's first effect is a run that never started: k = 1 is exempt)
+                # Once THIS run has published clusters.pkl (the atomic rename is in the trace before the crash point) the
+                # clustering is complete; a crash in the clean-up that follows leaves a complete final file, which
+                # must then be exactly the result of a fresh run.  Any other clusters.pkl after a crash is a failure.
+                published = "rename:clusters.pkl" in tr[:-1]
                 if a == "crash" and k > 1 and (o / "clusters.pkl").exists():
-                    res.failures.append({"signature": "C14:interrupted-run-leaves-a-final-cluster-file",
-                                         "what": f"crash before effect {k} ({tr[-1]}) of {total}: clusters.pkl present",
-                                         "case": {"case": case, "k": k, "effect": tr[-1], "partial": partial}})
+                    if not published:
+                        res.failures.append({"signature": "C14:interrupted-run-leaves-a-final-cluster-file",
+                                             "what": f"crash before effect {k} ({tr[-1]}) of {total}: clusters.pkl present",
+                                             "case": {"case": case, "k": k, "effect": tr[-1], "partial": partial}})
+                        break
+                    cnt["crashes_after_publication"] += 1
+                    if ("ok", finals(o)) != fresh["same"]:
+                        res.failures.append({"signature": "C14:final-files-of-a-run-interrupted-during-cleanup-differ-from-a-fresh-run",
+                                             "what": f"crash before effect {k} ({tr[-1]}) of {total}",
+                                             "case": {"case": case, "k": k, "effect": tr[-1], "partial": partial}})
+                        break
+                elif a == "crash" and published:
+                    res.failures.append({"signature": "C14:published-final-file-disappeared", "what": f"crash before effect {k} ({tr[-1]})",
+                                         "case": {"case": case, "k": k}})
                     break
                 tag, c2, in2 = rng.choice(reruns)
                 a2 = run_impl(c2, in2, o, procs=1)
